@@ -299,6 +299,64 @@ class Evaluator(Folder):
             finally:
                 pass
             self._block(st.finalbody)
+        elif isinstance(st, ast.With) and len(st.items) == 1 and self._generator_cm(st.items[0].context_expr) is not None:
+            # `with self._helper(...):` where the helper is a generator function under contextlib.contextmanager with a single
+            # `yield`: the with-body runs where the yield stands (an exception of the body surfaces at the yield, inside
+            # whatever try / except the helper wraps around it)
+            fn_, call_ = self._generator_cm(st.items[0].context_expr)  # type: ignore
+            node = self.repo_ctx().inl(fn_) if self.repo is not None else fn_.node
+            ys = [n for n in ast.walk(node) if isinstance(n, ast.Expr) and isinstance(n.value, ast.Yield)]
+            if len(ys) != 1 or any(isinstance(n, ast.YieldFrom) for n in ast.walk(node)):
+                raise Unfoldable("context manager %s: expected exactly one `yield` statement" % fn_.name)
+            yielded = ys[0].value.value  # type: ignore
+            body: List[ast.stmt] = []
+            if st.items[0].optional_vars is not None:
+                body.append(ast.Assign(targets=[st.items[0].optional_vars], value=yielded if yielded is not None else ast.Constant(value=None), lineno=st.lineno, col_offset=0))
+            body.extend(st.body)
+
+            class _Subst(ast.NodeTransformer):
+                def visit_Expr(self, n: ast.Expr) -> Any:  # noqa: N802
+                    if n is ys[0]:
+                        return _Marker()
+                    return n
+
+                def visit_FunctionDef(self, n: ast.FunctionDef) -> Any:  # noqa: N802
+                    return n if n is not node else self.generic_visit(n)
+
+            class _Marker(ast.stmt):
+                _fields = ()
+
+            import copy as _copy
+
+            # the helper's own frame: its parameters bound to the arguments; the with-body keeps the caller's frame.  Names of
+            # the two frames are kept apart by running the helper's statements in an environment layered over the caller's
+            helper_env = self._bind_call(fn_, call_)
+            outer = self
+
+            class _Inlined(Evaluator):
+                def _stmt(self, s: ast.stmt) -> None:  # type: ignore
+                    if isinstance(s, _Marker):
+                        outer._block(body)
+                        return
+                    super()._stmt(s)
+
+            tree = _Subst().visit(_copy.deepcopy(node) if False else node)
+            ev = _Inlined(helper_env, self.repo, fn_.module, fn_.cls, self.hook)
+            ev.depth = self.depth + 1
+            try:
+                ev._block(body_without_docstring_(tree))
+            except _Return:
+                pass
+            finally:
+                # restore the yield statement (the syntax tree is shared)
+                class _Back(ast.NodeTransformer):
+                    def generic_visit(self, n: ast.AST) -> ast.AST:  # type: ignore
+                        for field, old in ast.iter_fields(n):
+                            if isinstance(old, list):
+                                old[:] = [ys[0] if isinstance(x, _Marker) else (self.generic_visit(x) if isinstance(x, ast.AST) else x) for x in old]
+                        return n
+
+                _Back().generic_visit(tree)
         elif isinstance(st, ast.With):
             entered = []
             for item in st.items:
@@ -316,6 +374,50 @@ class Evaluator(Folder):
                     cm.__exit__(None, None, None)
         else:
             raise Unfoldable("statement " + type(st).__name__)
+
+    def repo_ctx(self) -> Any:
+        return _RepoShim(self.repo)
+
+    def _generator_cm(self, e: ast.expr) -> Any:
+        """(function, call) when `e` calls a method / function of the repository decorated with contextlib.contextmanager"""
+        if not (isinstance(e, ast.Call) and self.repo is not None and self.mod is not None):
+            return None
+        fn_ = None
+        try:
+            if isinstance(e.func, ast.Attribute) and isinstance(e.func.value, ast.Name) and e.func.value.id in ("self", "cls"):
+                obj = self.env.get(e.func.value.id)
+                k_ = obj._cls_ if type(obj).__name__ == "AObj" else (obj if isinstance(obj, ClassInfo) else self.cls)
+                fn_ = self.repo.lookup_method(k_, e.func.attr) if k_ is not None else None
+            elif isinstance(e.func, (ast.Name, ast.Attribute)) and (dotted(e.func) or "?").split(".")[0] not in self.env:
+                fn_ = self.repo.resolve_expr(self.mod, e.func, self.cls)
+        except Exception:
+            fn_ = None
+        if fn_ is None or type(fn_).__name__ != "FuncInfo":
+            return None
+        if not any((dotted(d.func) if isinstance(d, ast.Call) else dotted(d) or "").split(".")[-1] == "contextmanager" for d in fn_.node.decorator_list):
+            return None
+        return fn_, e
+
+    def _bind_call(self, fn_: Any, call: ast.Call) -> Dict[str, Any]:
+        a = fn_.node.args
+        params = [x.arg for x in a.posonlyargs + a.args]
+        env: Dict[str, Any] = {}
+        if fn_.cls is not None and not fn_.is_static and params:
+            recv = call.func.value if isinstance(call.func, ast.Attribute) else None
+            env[params[0]] = self.fold(recv) if recv is not None else None
+            params = params[1:]
+        vals = [self.fold(x) for x in call.args]
+        if len(vals) > len(params):
+            raise Unfoldable("too many arguments for %s" % fn_.name)
+        env.update(zip(params, vals))
+        env.update({k.arg: self.fold(k.value) for k in call.keywords if k.arg})
+        defaults = dict(zip(reversed(params), reversed(a.defaults)))
+        for p_ in params:
+            if p_ not in env:
+                if p_ not in defaults:
+                    raise Unfoldable("missing argument %s of %s" % (p_, fn_.name))
+                env[p_] = Folder({}, self.repo, fn_.module, fn_.cls).fold(defaults[p_])
+        return env
 
     def _is_subclass(self, name: str, bases: List[str]) -> bool:
         if "Exception" in bases or "BaseException" in bases:
@@ -520,7 +622,7 @@ def aobj_member(f: Folder, obj: AObj, attr: str) -> Any:
     raise Unfoldable("%s has no member %s" % (obj._cls_.name, attr))
 
 
-TRIVIAL_DECORATORS = ("staticmethod", "classmethod", "property", "cached_property", "abstractmethod", "setter", "overload", "lru_cache", "cache", "wraps", "override", "final")
+TRIVIAL_DECORATORS = ("staticmethod", "classmethod", "property", "cached_property", "contextmanager", "abstractmethod", "setter", "overload", "lru_cache", "cache", "wraps", "override", "final")
 
 
 def nontrivial_decorators(fn: Any) -> List[ast.expr]:
@@ -571,7 +673,16 @@ class _BoundMethod(Abstract):
             env[params[0]] = self.obj if not fn.is_classmethod else self.obj._cls_
             params = params[1:]
         if len(args) > len(params):
-            raise Unfoldable("too many arguments for %s" % fn.name)
+            if a.vararg is None:
+                raise Unfoldable("too many arguments for %s" % fn.name)
+            env[a.vararg.arg] = tuple(args[len(params):])
+            args = list(args[: len(params)])
+        elif a.vararg is not None:
+            env[a.vararg.arg] = ()
+        if a.kwarg is not None:
+            named = set(params) | {x.arg for x in a.kwonlyargs}
+            env[a.kwarg.arg] = {k: v for k, v in kwargs.items() if k not in named}
+            kwargs = {k: v for k, v in kwargs.items() if k in named}
         for p, v in zip(params, args):
             env[p] = v
         for k, v in kwargs.items():
@@ -650,7 +761,16 @@ def construct(ctx: Any, cls: ClassInfo, *args: Any, hook: Any = None, **kwargs: 
                 if name not in vals:
                     if default is None:
                         raise Unfoldable("constructor argument %s of %s not given" % (name, cls.name))
-                    vals[name] = Folder({}, repo, cls.module, cls, hook).fold(default)
+                    if isinstance(default, ast.Call) and (dotted(default.func) or "").split(".")[-1] == "field":
+                        fkw = {k.arg: k.value for k in default.keywords if k.arg}
+                        if "default_factory" in fkw:
+                            vals[name] = Evaluator({}, repo, cls.module, cls, hook).fold(ast.Call(func=fkw["default_factory"], args=[], keywords=[]))
+                        elif "default" in fkw:
+                            vals[name] = Folder({}, repo, cls.module, cls, hook).fold(fkw["default"])
+                        else:
+                            raise Unfoldable("constructor argument %s of %s not given" % (name, cls.name))
+                    else:
+                        vals[name] = Folder({}, repo, cls.module, cls, hook).fold(default)
                 o.__dict__[name] = vals[name]
             if is_nt:
                 o.__dict__["_record_fields_"] = [f_[0] for f_ in fields]
@@ -693,7 +813,16 @@ def call_fn(ctx: Any, fn: Any, args: Sequence[Any], kwargs: Optional[Dict[str, A
     a = node.args
     params = [x.arg for x in a.posonlyargs + a.args]
     env: Dict[str, Any] = dict(zip(params, args))
-    env.update(kwargs or {})
+    if a.vararg is not None:
+        env[a.vararg.arg] = tuple(args[len(params):])
+    elif len(args) > len(params):
+        raise Unfoldable("too many arguments for %s" % fn.name)
+    kwargs = dict(kwargs or {})
+    if a.kwarg is not None:
+        named = set(params) | {x.arg for x in a.kwonlyargs}
+        env[a.kwarg.arg] = {k: v for k, v in kwargs.items() if k not in named}
+        kwargs = {k: v for k, v in kwargs.items() if k in named}
+    env.update(kwargs)
     defaults = dict(zip(reversed(params), reversed(a.defaults)))
     kwdefaults = dict(zip([x.arg for x in a.kwonlyargs], a.kw_defaults))
     for p_ in params + [x.arg for x in a.kwonlyargs]:
@@ -827,7 +956,7 @@ def ctor_hook(ctx: Any, base_hook: Any = None, only: Optional[Sequence[str]] = N
             if isinstance(k, ast.Call) and (dotted(k.func) or "").endswith("NamedTuple") and len(k.args) == 2 and isinstance(k.args[1], (ast.List, ast.Tuple)):
                 # X = typing.NamedTuple("X", [("a", T), ...]): a record with those fields
                 fields = [el.elts[0].value for el in k.args[1].elts if isinstance(el, ast.Tuple) and el.elts and isinstance(el.elts[0], ast.Constant)]
-                vals = [f.fold(a) for a in e.args]
+                vals = fold_args(f, e)
                 kw = {x.arg: f.fold(x.value) for x in e.keywords if x.arg}
                 if len(vals) > len(fields) or any(n not in fields for n in kw):
                     raise Unfoldable(unparse(e))
@@ -922,7 +1051,7 @@ def path_hook(base_hook: Any = None) -> Any:
             if r is not NotImplemented:
                 return r
         if isinstance(e, ast.Call) and (dotted(e.func) or "") in ("Path", "pathlib.Path", "PurePath", "pathlib.PurePath") and (dotted(e.func) or "").split(".")[0] not in f.env:
-            vals = [f.fold(a) for a in e.args]
+            vals = fold_args(f, e)
             return APath(*[str(v) for v in vals])
         return NotImplemented
 
